@@ -79,3 +79,110 @@ Definition store_wfb (st : store) : bool :=
                     && forallb (fun p => valid_locb st p && (lmc p <? g_first s)) (prior_list (g_prior s) ++ g_skip s))
           (st_segs st)
   && forallb (fun h => valid_locb st (snd h)) (st_heads st).
+
+(** * C18: canonical outcomes of decoding / receiving arbitrary bytes *)
+Inductive dclass :=
+| DcErr | DcPoll (sid : N) | DcSub (n mb ro : N) | DcUnsub | DcPush (sid : N)
+| DcHelloSub | DcHelloUnsub | DcHello (mc : N).
+
+Definition classify_decode (bs : list N) : dclass :=
+  match dec_sync_type bs with
+  | DErr => DcErr
+  | DOk (TPoll m) _ => DcPoll (req_sid m)
+  | DOk (TSubscribe ro mb cs _) _ => DcSub (N.of_nat (length cs)) mb ro
+  | DOk (TUnsubscribe _) _ => DcUnsub
+  | DOk (TPush m _) _ => DcPush (resp_sid m)
+  | DOk (THello (HSubscribe _ _ _ _)) _ => DcHelloSub
+  | DOk (THello (HUnsubscribe _)) _ => DcHelloUnsub
+  | DOk (THello (HHello _ h)) _ => DcHello (amc h)
+  end.
+
+Definition dclass_eqb (a b : dclass) : bool :=
+  match a, b with
+  | DcErr, DcErr | DcUnsub, DcUnsub | DcHelloSub, DcHelloSub | DcHelloUnsub, DcHelloUnsub => true
+  | DcPoll x, DcPoll y | DcPush x, DcPush y | DcHello x, DcHello y => x =? y
+  | DcSub a1 a2 a3, DcSub b1 b2 b3 => (a1 =? b1) && (a2 =? b2) && (a3 =? b3)
+  | _, _ => false
+  end.
+
+(** 0 = Ok(Success), 1 = Ok(TooManySubscriptions), 2 = Err *)
+Definition classify_subres (bs : list N) : N :=
+  match dec_subscribe_result bs with DOk true _ => 0 | DOk false _ => 1 | DErr => 2 end.
+
+(** requester.receive: (class, slices, ready) with class 0 = Ok(Some), 1 = Ok(None), 100+code = Err,
+    200 = panic, 300 = fuel; a slice is (policy (offset, len) if any, data (offset, len)), offsets from the
+    start of the input *)
+Definition rcv_class (hdr : N) (r : rres (option (list rcmd))) : N * list (option (N * N) * (N * N)) :=
+  match r with
+  | ROk (Some cs) =>
+    (0, map (fun c => (match rc_policy c with Some (a, b) => Some (hdr + a, b - a) | None => None end,
+                       (hdr + fst (rc_data c), snd (rc_data c) - fst (rc_data c)))) cs)
+  | ROk None => (1, [])
+  | RErr e => (100 + serr_code e, [])
+  | RPanic _ => (200, [])
+  | RFuel => (300, [])
+  end.
+
+Fixpoint feed_empty (dbg : bool) (q : requester) (i : N) (k : nat) : requester :=
+  match k with
+  | O => q
+  | S k' => feed_empty dbg (fst (receive dbg q (enc_resp (SyncResponse (q_sid q) i [])))) (i + 1) k'
+  end.
+
+Definition hdr_len (bs : list N) : N :=
+  match dec_resp bs with DOk _ rest => N.of_nat (length bs) - N.of_nat (length rest) | DErr => 0 end.
+
+Definition reqrecv_out (dbg start : bool) (sid : N) (k : nat) (bs : list N)
+  : N * list (option (N * N) * (N * N)) * bool :=
+  let q0 := if start then q_set (requester_new 0 sid) QStart else requester_new_session 0 sid in
+  let q1 := feed_empty dbg q0 0 k in
+  let '(q2, r) := receive dbg q1 bs in
+  (rcv_class (hdr_len bs) r, q_ready q2).
+
+Definition push_out (dbg : bool) (sid : N) (bs : list N) : N * list (option (N * N) * (N * N)) * bool :=
+  match dec_sync_type bs with
+  | DOk (TPush m _) rest =>
+    let '(q2, r) := get_sync_commands dbg (requester_new_session 0 sid) m (N.of_nat (length rest)) in
+    (rcv_class (N.of_nat (length bs) - N.of_nat (length rest)) r, q_ready q2)
+  | DOk _ _ => (400, [], false)
+  | DErr => (401, [], false)
+  end.
+
+Definition slices_eqb (a b : list (option (N * N) * (N * N))) : bool :=
+  list_eqb (fun x y => option_eqb (pair_eqb N.eqb N.eqb) (fst x) (fst y) && pair_eqb N.eqb N.eqb (snd x) (snd y)) a b.
+
+Definition reqrecv_eqb (a b : N * list (option (N * N) * (N * N)) * bool) : bool :=
+  (fst (fst a) =? fst (fst b)) && slices_eqb (snd (fst a)) (snd (fst b)) && Bool.eqb (snd a) (snd b).
+
+(** responder: per message (receive class, poll outcome, ready) *)
+(** receive class: 0 ok, 100+code err, 50 not a poll, 51 decode error *)
+Definition resp_steps (dbg : bool) (p : provider) (tlen : N) (msgs : list (list N))
+  : list (N * rres out_msg * bool) :=
+  (fix go (r : responder) (ms : list (list N)) :=
+     match ms with
+     | [] => []
+     | bs :: rest =>
+       let '(r1, rc) :=
+         match dec_sync_type bs with
+         | DOk (TPoll m) _ => let '(r', d) := dispatch r m in
+                              (r', match d with ROk _ => 0 | RErr e => 100 + serr_code e | RPanic _ => 200 | RFuel => 300 end)
+         | DOk _ _ => (r, 50)
+         | DErr => (r, 51)
+         end in
+       let '(r2, o) := poll dbg p r1 tlen in
+       (rc, o, r_ready r2) :: go r2 rest
+     end) responder_new msgs.
+
+Definition resp_step_ok (a : N * rres out_msg * bool) (x : N * expect * bool) : bool :=
+  (fst (fst a) =? fst (fst x)) && attempt_ok (snd (fst a)) (snd (fst x)) && Bool.eqb (snd a) (snd x).
+
+(** * Byte strings as hex literals (long list literals are slow to parse) *)
+From Coq Require Import String Ascii.
+Definition hexval (a : ascii) : N :=
+  let n := N_of_ascii a in
+  if n <? 58 then n - 48 else n - 87.
+Fixpoint hx (s : string) : list N :=
+  match s with
+  | String a (String b r) => (16 * hexval a + hexval b) :: hx r
+  | _ => []
+  end.
